@@ -14,8 +14,9 @@ TRUSTED_BASE = [
 ASSUMPTIONS = ["the peer makes progress (C17's premise)"]
 
 
-def case_lines(name, mode, blocking, total, chunk, finish, ops):
-    return ["case " + name, "mode " + mode, "blocking %d" % blocking, "total %d chunk %d" % (total, chunk), "finish " + finish] + ops + ["end"]
+def case_lines(name, mode, blocking, total, chunk, finish, ops, probe=0):
+    return ["case " + name, "mode " + mode, "blocking %d" % blocking, "total %d chunk %d" % (total, chunk), "finish " + finish,
+            "probe %d" % probe] + ops + ["end"]
 
 
 def gen_cases(tier, seed, search):
@@ -44,7 +45,7 @@ def gen_cases(tier, seed, search):
                 if rnd.random() < 0.8:
                     ops.append("settle")
             ops += ["finishpeer"]
-        cases.append(case_lines("a%d" % i, mode, rnd.randrange(2), total, chunk, rnd.choice(["drop", "intoinner"]), ops))
+        cases.append(case_lines("a%d" % i, mode, rnd.randrange(2), total, chunk, rnd.choice(["drop", "intoinner"]), ops, probe=1 if rnd.random() < 0.35 else 0))
     return cases
 
 
@@ -158,7 +159,7 @@ def run(res, tier, seed, search=False, have_drv=True):
             if len(res.violations) < 3:
                 d = C.write_replay(res.pid, {"case.io": "\n".join(c) + "\n", "impl.obs": "\n".join(impl[i]) + "\n",
                                               "model.obs": ("\n".join(model[i]) + "\n") if model else "-\n", "verdict.txt": v + "\n"})
-                res.violations.append(("C17 on the real adapter: %s   [%s]" % (v, " ; ".join(c[1:5])), os.path.join(d, "case.io")))
+                res.violations.append(("C17 on the real adapter: %s   [%s]" % (v, " ; ".join(c[1:6])), os.path.join(d, "case.io")))
         if model is not None and comparable(c):
             compared += 1
             if impl[i] != model[i]:
@@ -168,7 +169,7 @@ def run(res, tier, seed, search=False, have_drv=True):
                     d = C.write_replay(res.pid, {"case.io": "\n".join(c) + "\n", "impl.obs": "\n".join(impl[i]) + "\n",
                                                   "model.obs": "\n".join(model[i]) + "\n"}, tag="diff")
                     res.broken.append("correspondence: real adapter and AsyncProto disagree on `%s`: impl `%s` vs model `%s` (replay %s)"
-                                      % (" ; ".join(c[1:5]), first[0], first[1], os.path.join(d, "case.io")))
+                                      % (" ; ".join(c[1:6]), first[0], first[1], os.path.join(d, "case.io")))
     res.cov["distinct_nontrivial"] = len(nontrivial)
     res.cov["traces_validated_against_impl"] = compared
     res.cov["samples"] = [{"case": cases[j][:12], "impl_trace": impl[j][:8]} for j in (0, len(cases) // 2, len(cases) - 1)]
